@@ -931,8 +931,13 @@ Proof.
       rewrite Hs, <- app_assoc. reflexivity.
     + destruct prog as [|q p]; [apply Hsingle; [reflexivity | exact H]|].
       destruct q; try (apply Hsingle; [reflexivity | exact H]).
-      rewrite (Hbat eq_refl) in *.
-      apply (Hbatch (push OMark st) p); [| reflexivity | | apply memo_ext_same; reflexivity | | exact H].
+      (* MARK: a batch, or the first opcode of x itself *)
+      match type of H with
+      | match ?t with Some res => Some res | None => _ end = _ => destruct t as [res|] eqn:Eb
+      end; [|apply Hsingle; [reflexivity | exact H]].
+      inversion H; subst res. clear H.
+      pose proof (Hbat eq_refl) as Eb0. subst batch.
+      apply (Hbatch (push OMark st) p); [| reflexivity | | apply memo_ext_same; reflexivity | | exact Eb].
       * apply run_step_next. reflexivity.
       * apply inv_push; [exact Hinv | reflexivity].
       * cbn. rewrite Hs. reflexivity.
